@@ -66,7 +66,8 @@ def export(config, repo=None, force=False, crate="rarena_allocator", package="ra
     try:
         env = dict(os.environ)
         env["LD_LIBRARY_PATH"] = sysroot() + "/lib"
-        env["RUSTFLAGS"] = "-Zmir-opt-level=0 -Awarnings" + ("" if ovf else " -C overflow-checks=off")
+        # debug assertions off: no pointer-check (UB check) blocks in MIR; overflow checks set explicitly
+        env["RUSTFLAGS"] = "-Zmir-opt-level=0 -Awarnings -C debug-assertions=off -C overflow-checks=" + ("on" if ovf else "off")
         env["RUSTC_WORKSPACE_WRAPPER"] = DRIVER
         env["CARGO_TARGET_DIR"] = tdir
         env["CARGO_NET_OFFLINE"] = "true"
